@@ -1846,7 +1846,7 @@ fn exec_fresh(cfg: &Cfg, hist: &[Ev]) -> Result<Exec, Vec<String>> { on_fresh_th
 fn exec(cfg: &Cfg, hist: &[Ev]) -> Result<Exec, Vec<String>> {
     PANICS.with(|p| p.borrow_mut().clear());
     let (cfg2, hist2) = (*cfg, hist.to_vec());
-    let r = panic::catch_unwind(AssertUnwindSafe(move || {
+    let r = panic::catch_unwind(AssertUnwindSafe(move || { let _watch = rpki_verif::WatchScope::enter();
         let rt = tokio::runtime::Builder::new_current_thread().enable_time().start_paused(true).build().unwrap();
         let e = rt.block_on(exec_async(cfg2, hist2));
         drop(rt);
@@ -1989,7 +1989,7 @@ fn entry_min_version(e: &Entry) -> u8 { match e { Entry::Origin { .. } => 0, Ent
 
 fn scale_exec(case: ScaleCase) -> Result<ScaleOutcome, Vec<String>> {
     PANICS.with(|p| p.borrow_mut().clear());
-    let r = panic::catch_unwind(AssertUnwindSafe(move || {
+    let r = panic::catch_unwind(AssertUnwindSafe(move || { let _watch = rpki_verif::WatchScope::enter();
         let rt = tokio::runtime::Builder::new_current_thread().enable_time().start_paused(true).build().unwrap();
         rt.block_on(scale_async(case))
     }));
@@ -2633,7 +2633,7 @@ fn seq_exec_fresh(scn: &Scn) -> Result<SeqOut, Vec<String>> { on_fresh_thread(||
 fn seq_exec(scn: &Scn) -> Result<SeqOut, Vec<String>> {
     PANICS.with(|p| p.borrow_mut().clear());
     let scn2 = scn.clone();
-    let r = panic::catch_unwind(AssertUnwindSafe(move || {
+    let r = panic::catch_unwind(AssertUnwindSafe(move || { let _watch = rpki_verif::WatchScope::enter();
         let rt = tokio::runtime::Builder::new_current_thread().enable_time().start_paused(true).build().unwrap();
         let e = rt.block_on(seq_async(scn2));
         drop(rt);
@@ -3786,7 +3786,7 @@ async fn routes_async(case: RtCase) -> RtOut {
 
 fn routes_exec(case: RtCase) -> Result<RtOut, Vec<String>> {
     PANICS.with(|p| p.borrow_mut().clear());
-    let r = panic::catch_unwind(AssertUnwindSafe(move || {
+    let r = panic::catch_unwind(AssertUnwindSafe(move || { let _watch = rpki_verif::WatchScope::enter();
         let rt = tokio::runtime::Builder::new_current_thread().enable_time().start_paused(true).build().unwrap();
         rt.block_on(routes_async(case))
     }));
